@@ -75,6 +75,8 @@ var mgWants = []mgWant{
 	{"internal/workers/trigger_pool.go", "TriggerPool", "waitForNewJobs", "", "pool_waitForNewJobs"},
 	{"internal/workers/trigger_pool.go", "TriggerPool", "run", "", "pool_run"},
 	{"internal/workers/continuous_pool.go", "ContinuousPool", "startWorker", "", "cpool_startWorker"},
+	{"internal/workers/continuous_pool.go", "ContinuousPool", "Start", "", "cpool_Start"},
+	{"internal/workers/trigger_pool.go", "TriggerPool", "Start", "", "pool_Start"},
 	{"internal/workers/continuous_pool.go", "ContinuousPool", "maxIterationsReached", "", "cpool_maxIterationsReached"},
 	{"internal/run/run_cmd.go", "", "runCmdExecute", "return", "cmd_execute"},
 	{"internal/trigger/staged/calculator.go", "RateCalculator", "add", "", "staged_add"},
@@ -758,6 +760,22 @@ func (c *mgCtx) stmt(s ast.Stmt) string {
 		return c.unsupportedS(s)
 	case *ast.DeferStmt:
 		return c.callStmt(x.Call, true)
+	case *ast.GoStmt:
+		// `go f(args)` / `go func() { … }()`: the arguments are evaluated now; that a goroutine is started here is an effect
+		// (what the goroutine does is not part of this function's sequential meaning)
+		if _, isLit := x.Call.Fun.(*ast.FuncLit); isLit {
+			return "(.effect \"go func\")"
+		}
+		var parts []string
+		for _, a := range x.Call.Args {
+			parts = append(parts, "(.eval "+c.expr(a)+")")
+		}
+		name := c.path(x.Call.Fun)
+		if name == "" {
+			return c.unsupportedS(s)
+		}
+		parts = append(parts, "(.effect "+leanStr("go "+name)+")")
+		return seq(parts)
 	case *ast.IncDecStmt:
 		op := "add"
 		if x.Tok == token.DEC {
